@@ -111,9 +111,9 @@ Section CmdLoop.
   Variables (a : alltables) (benv : BashSem.env).
   Definition ccands (cid : N) : list string := spec_candidates (cmd_output benv cid).
 
-  Lemma cmd_loop_spec b sub mp : forall L log,
+  Lemma cmd_loop_spec b sub mp : forall L,
     (forall cid to, In (cid, to) L -> nthN (a_commands a) cid <> None) ->
-    exists r log', cmd_loop Repaired b a benv L sub mp log = Ok (r, log')
+    exists r, (forall log, exists log', cmd_loop Repaired b a benv L sub mp log = Ok (r, log'))
       /\ match r with
          | SCont to n => exists cid c, In (cid, to) L /\ In c (ccands cid) /\ String.prefix c sub = true /\ n = String.length c
                                        /\ (c <> EmptyString \/ sub = EmptyString)
@@ -122,31 +122,42 @@ Section CmdLoop.
                                      (c <> EmptyString -> String.prefix c sub = false) /\ (b = true -> String.prefix sub c = false)
          end.
   Proof.
-    induction L as [| [cid to] L IH]; intros log Hc; cbn [cmd_loop].
-    - exists SNone, log. split; [reflexivity | intros cid to c []].
-    - unfold run_cmd. destruct (nthN (a_commands a) cid) eqn:En; [| exfalso; apply (Hc cid to (or_introl eq_refl)); exact En].
-      cbn [obind]. unfold command_lines. cbn [quirky]. rewrite filter_lines_repaired_spec. fold (ccands cid).
-      assert (Hc' : forall cid' to', In (cid', to') L -> nthN (a_commands a) cid' <> None) by (intros c' t' H; apply (Hc c' t'); right; exact H).
+    induction L as [| [cid to] L IH]; intros Hc.
+    - exists SNone. split; [intro log; exists log; reflexivity | intros cid to c []].
+    - assert (Hc' : forall cid' to', In (cid', to') L -> nthN (a_commands a) cid' <> None) by (intros c' t' H; apply (Hc c' t'); right; exact H).
+      destruct (IH Hc') as [rt [Et Hspec]].
+      destruct (nthN (a_commands a) cid) eqn:En; [| exfalso; apply (Hc cid to (or_introl eq_refl)); exact En].
+      assert (Hstep : forall log, cmd_loop Repaired b a benv ((cid, to) :: L) sub mp log
+                = match ccands cid with
+                  | [] => cmd_loop Repaired b a benv L sub mp ((cid, sub, mp) :: log)
+                  | _ => match cand_loop_str b (sort_desc (ccands cid)) to sub with
+                         | SNone => cmd_loop Repaired b a benv L sub mp ((cid, sub, mp) :: log)
+                         | r => Ok (r, (cid, sub, mp) :: log)
+                         end
+                  end).
+      { intro log. cbn [cmd_loop]. unfold run_cmd. rewrite En. cbn [obind]. unfold command_lines. cbn [quirky].
+        rewrite filter_lines_repaired_spec. fold (ccands cid). destruct (ccands cid) as [| c0 cs]; [reflexivity |].
+        unfold cand_loop. cbn [quirky obind]. destruct (cand_loop_str b (sort_desc (c0 :: cs)) to sub); reflexivity. }
       destruct (ccands cid) as [| c0 cs] eqn:Ecs.
-      + destruct (IH ((cid, sub, mp) :: log) Hc') as [r [log' [E Hspec]]]. exists r, log'. split; [exact E |].
-        destruct r as [to' n | |].
-        * destruct Hspec as [cid' [c [Hin Hr]]]. exists cid', c. split; [right; exact Hin | exact Hr].
-        * destruct Hspec as [Eb [cid' [to' [c [Hin Hr]]]]]. split; [exact Eb |]. exists cid', to', c. split; [right; exact Hin | exact Hr].
-        * intros cid' to' c [Ein | Hin] Hcc; [inversion Ein; subst; rewrite Ecs in Hcc; destruct Hcc | apply (Hspec cid' to' c Hin Hcc)].
-      + unfold cand_loop. cbn [quirky obind]. rewrite <- Ecs.
-        destruct (cand_loop_str b (sort_desc (ccands cid)) to sub) as [to' n | |] eqn:Ecl.
-        * exists (SCont to' n), ((cid, sub, mp) :: log). split; [reflexivity |].
+      + exists rt. split.
+        * intro log. rewrite Hstep. apply Et.
+        * destruct rt as [to' n | |].
+          -- destruct Hspec as [cid' [c [Hin Hr]]]. exists cid', c. split; [right; exact Hin | exact Hr].
+          -- destruct Hspec as [Eb [cid' [to' [c [Hin Hr]]]]]. split; [exact Eb |]. exists cid', to', c. split; [right; exact Hin | exact Hr].
+          -- intros cid' to' c [Ein | Hin] Hcc; [inversion Ein; subst; rewrite Ecs in Hcc; destruct Hcc | apply (Hspec cid' to' c Hin Hcc)].
+      + destruct (cand_loop_str b (sort_desc (c0 :: cs)) to sub) as [to' n | |] eqn:Ecl.
+        * exists (SCont to' n). split; [intro log; rewrite Hstep; eexists; reflexivity |].
           destruct (cls_cont _ _ _ _ _ _ Ecl) as [-> [c [Hin Hr]]]. apply (proj1 (In_sort_desc _ _)) in Hin.
-          exists cid, c. split; [left; reflexivity | split; [exact Hin | exact Hr]].
-        * exists SBreak, ((cid, sub, mp) :: log). split; [reflexivity |].
+          exists cid, c. split; [left; reflexivity | split; [rewrite Ecs; exact Hin | exact Hr]].
+        * exists SBreak. split; [intro log; rewrite Hstep; eexists; reflexivity |].
           destruct (cls_break _ _ _ _ Ecl) as [Eb [c [Hin Hr]]]. apply (proj1 (In_sort_desc _ _)) in Hin. split; [exact Eb |].
-          exists cid, to, c. split; [left; reflexivity | split; [exact Hin | exact Hr]].
-        * destruct (IH ((cid, sub, mp) :: log) Hc') as [r [log' [E Hspec]]]. exists r, log'. split; [exact E |].
-          destruct r as [to' n | |].
+          exists cid, to, c. split; [left; reflexivity | split; [rewrite Ecs; exact Hin | exact Hr]].
+        * exists rt. split; [intro log; rewrite Hstep; apply Et |].
+          destruct rt as [to' n | |].
           -- destruct Hspec as [cid' [c [Hin Hr]]]. exists cid', c. split; [right; exact Hin | exact Hr].
           -- destruct Hspec as [Eb [cid' [to' [c [Hin Hr]]]]]. split; [exact Eb |]. exists cid', to', c. split; [right; exact Hin | exact Hr].
           -- intros cid' to' c [Ein | Hin] Hcc; [| apply (Hspec cid' to' c Hin Hcc)]. inversion Ein; subst.
-             apply (cls_none _ _ _ _ Ecl c). apply (proj2 (In_sort_desc _ _)). exact Hcc.
+             apply (cls_none _ _ _ _ Ecl c). apply (proj2 (In_sort_desc _ _)). rewrite <- Ecs. exact Hcc.
   Qed.
 End CmdLoop.
 
@@ -166,18 +177,19 @@ Section CmdsLevel.
   Definition cmds_off (cp mp : string) (cids : list N) : list string :=
     flat_map (fun cid => map (append mp) (filter (String.prefix cp) (ccands benv cid))) cids.
 
-  Lemma sw_cmds_level_gen cp mp : printable_str cp = true -> forall cids sc sm log,
+  Lemma sw_cmds_level_gen cp mp : printable_str cp = true -> forall cids sc sm,
     (forall cid, In cid cids -> nthN (a_commands a) cid <> None) ->
-    exists sc' log', sw_cmds_level Repaired a benv cids cp mp sc sm log = Ok (sc', sm ++ cmds_off cp mp cids, log').
+    exists sc', forall log, exists log', sw_cmds_level Repaired a benv cids cp mp sc sm log = Ok (sc', sm ++ cmds_off cp mp cids, log').
   Proof.
-    intro Hp. induction cids as [| cid r IH]; intros sc sm log Hc; cbn [sw_cmds_level cmds_off flat_map].
-    - rewrite app_nil_r. eauto.
-    - unfold run_cmd. destruct (nthN (a_commands a) cid) eqn:En; [| exfalso; apply (Hc cid (or_introl eq_refl)); exact En].
-      cbn [obind]. unfold command_lines. cbn [quirky]. rewrite filter_lines_repaired_spec. fold (ccands benv cid).
-      rewrite (match_fn_prefix_filter benv cp _ Hic Hp). cbn [obind].
-      destruct (IH (ccands benv cid) (sm ++ map (append mp) (filter (String.prefix cp) (ccands benv cid))) ((cid, cp, mp) :: log)) as [sc' [log' E]].
+    intro Hp. induction cids as [| cid r IH]; intros sc sm Hc; cbn [sw_cmds_level cmds_off flat_map].
+    - rewrite app_nil_r. exists sc. intro log. eauto.
+    - destruct (nthN (a_commands a) cid) eqn:En; [| exfalso; apply (Hc cid (or_introl eq_refl)); exact En].
+      destruct (IH (ccands benv cid) (sm ++ map (append mp) (filter (String.prefix cp) (ccands benv cid)))) as [sc' E].
       { intros c' H. apply Hc. right; exact H. }
-      exists sc', log'. rewrite E. rewrite <- app_assoc. reflexivity.
+      exists sc'. intro log. unfold run_cmd. rewrite En. cbn [obind]. unfold command_lines. cbn [quirky].
+      rewrite filter_lines_repaired_spec. fold (ccands benv cid).
+      rewrite (match_fn_prefix_filter benv cp _ Hic Hp). cbn [obind].
+      destruct (E ((cid, cp, mp) :: log)) as [log' E']. exists log'. rewrite E'. rewrite <- app_assoc. reflexivity.
   Qed.
 End CmdsLevel.
 
@@ -444,15 +456,16 @@ Section WordSimG.
     - apply Hnone. intros t to Hen. unfold enabled in Hen. rewrite Es in Hen. destruct Hen.
   Qed.
 
-  Lemma cmd_stage b s S sub mp log : wrel s S -> sub <> EmptyString ->
-    exists r log',
-      (match t_mcmd Tw with
-       | Some ct => match assocN s ct with
-                    | Some row => cmd_loop Repaired b a benv (assoc_of row) sub mp log
-                    | None => Ok (SNone, log)
-                    end
-       | None => Ok (SNone, log)
-       end) = Ok (r, log')
+  Lemma cmd_stage b s S sub mp : wrel s S -> sub <> EmptyString ->
+    exists r,
+      (forall log, exists log',
+        (match t_mcmd Tw with
+         | Some ct => match assocN s ct with
+                      | Some row => cmd_loop Repaired b a benv (assoc_of row) sub mp log
+                      | None => Ok (SNone, log)
+                      end
+         | None => Ok (SNone, log)
+         end) = Ok (r, log'))
       /\ match r with
          | SCont to n => exists c l k o, In (WCmd c l, k) (mvs S) /\ In o (candidates en c) /\ String.prefix o sub = true
                                          /\ n = String.length o /\ trans_on sd s (ICmd c l) to /\ first_cmd en (mvs S) sub = Some (c, o)
@@ -484,9 +497,9 @@ Section WordSimG.
         { intros cid to Hin. apply (assoc_of_in row Krow) in Hin.
           destruct (cmd_row_sound ct s row cid to Ect Er Hin) as [cm [l [Hidx Htr]]]. destruct (cmd_item s S cm l to R Htr) as [k Hmv].
           exists cm, l, k. split; [exact Hidx | split; [exact Htr | split; [exact Hmv | apply (Hcenv cm cid Hidx)]]]. }
-        destruct (cmd_loop_spec a benv b sub mp (assoc_of row) log) as [r [log' [E Hspec]]].
+        destruct (cmd_loop_spec a benv b sub mp (assoc_of row)) as [r [E Hspec]].
         { intros cid to Hin. destruct (Hentry cid to Hin) as [cm [l [k [Hidx _]]]]. rewrite Hcmds, (index_of_nth _ _ _ Hidx). discriminate. }
-        exists r, log'. split; [exact E |]. destruct r as [to n | |].
+        exists r. split; [exact E |]. destruct r as [to n | |].
         * destruct Hspec as [cid [c0 [Hin [Hc0 [Hp [-> Hne0]]]]]]. destruct (Hentry cid to Hin) as [cm [l [k [Hidx [Htr [Hmv Hcc]]]]]].
           rewrite Hcc in Hc0. exists cm, l, k, c0. split; [exact Hmv | split; [exact Hc0 | split; [exact Hp | split; [reflexivity | split; [exact Htr |]]]]].
           assert (E0 : etok en S (WCmd cm l) k c0) by (split; [exact Hmv | exact Hc0]).
@@ -506,8 +519,8 @@ Section WordSimG.
           assert (Hcc : In o (ccands benv cid)) by (unfold ccands; rewrite (Hcenv c cid Hidx); exact Hc).
           destruct (etok_src en x Henvw S _ _ _ (wr_inv _ _ R) (conj Hmv Hc : etok en S (WCmd c l) k o)) as [Hne _].
           destruct (Hspec cid to o Hin Hcc) as [H1 H2]. split; [apply H1; exact Hne | exact H2].
-      + exists SNone, log. split; [reflexivity |]. apply Hnone. apply Hnorow. intros ct' row' E1 E2. inversion E1; subst. congruence.
-    - exists SNone, log. split; [reflexivity |]. apply Hnone. apply Hnorow. intros ct' row' E1 E2. discriminate.
+      + exists SNone. split; [intro log; exists log; reflexivity |]. apply Hnone. apply Hnorow. intros ct' row' E1 E2. inversion E1; subst. congruence.
+    - exists SNone. split; [intro log; exists log; reflexivity |]. apply Hnone. apply Hnorow. intros ct' row' E1 E2. discriminate.
   Qed.
 
   (** *** matching mode: the greedy reading *)
@@ -554,7 +567,7 @@ Section WordSimG.
         * rewrite gsdrop_add, Esub in E. fold sub in E. rewrite gsdrop_eq in E. eauto.
       + destruct Hl as [Hb _]. discriminate.
       + destruct Hl as [Efl _]. rewrite Efl.
-        destruct (cmd_stage false s S sub (stake ci word) log R) as [r0 [log1 [Ec Hc]]]; [discriminate |].
+        destruct (cmd_stage false s S sub (stake ci word) R) as [r0 [Ec0 Hc]]; [discriminate |]. destruct (Ec0 log) as [log1 Ec].
         match goal with |- context [obind ?X _] => assert (EE : X = Ok (r0, log1)) by exact Ec; rewrite EE end. cbn [obind].
         destruct r0 as [to n | |].
         * destruct Hc as [c [l [k [o [Hmv [Hco [Hp [-> [Htr Efc]]]]]]]]]. rewrite Efc.
@@ -569,10 +582,10 @@ Section WordSimG.
           destruct (t_mstar Tw) as [stars |]; [destruct (has_key s stars) |]; eauto.
   Qed.
 
-  Theorem subword_matches_gen w log : d_start sd = 0 ->
-    exists log', subword_matches Repaired a benv Tw (d_accepting sd) w log = Ok (gaccepts en x w, log').
+  Theorem subword_matches_gen w : d_start sd = 0 ->
+    forall log, exists log', subword_matches Repaired a benv Tw (d_accepting sd) w log = Ok (gaccepts en x w, log').
   Proof.
-    intro H0. unfold subword_matches, subword_matches_from, gaccepts.
+    intros H0 log. unfold subword_matches, subword_matches_from, gaccepts.
     destruct (sw_match_gacc w (String.length w) (sw_fuel Tw w) 0 [x] 0%nat log) as [st' [ci' [log' E]]].
     - rewrite <- H0. apply wrel_start.
     - cbn [Glob.sdrop]. lia.
@@ -581,52 +594,87 @@ Section WordSimG.
   Qed.
 
   (** *** completing mode: the greedy run, then the levels *)
-  Theorem sw_complete_grun word acc : forall f s S ci log, wrel s S -> (String.length word - ci < f)%nat ->
-    exists b st' ci' log' S' mp,
-      sw_loop f Repaired true a benv Tw acc word s ci log = Ok (b, st', ci', log')
+  Theorem sw_complete_grun word acc : forall f s S ci, wrel s S -> (String.length word - ci < f)%nat ->
+    exists b st' ci' S' mp,
+      (forall log, exists log', sw_loop f Repaired true a benv Tw acc word s ci log = Ok (b, st', ci', log'))
       /\ grun en S (Glob.sdrop ci word) S' mp (Glob.sdrop ci' word) /\ wrel st' S'.
   Proof.
-    induction f as [| f IH]; intros s S ci log R Hf; [lia |]. cbn [sw_loop quirky orb].
+    induction f as [| f IH]; intros s S ci R Hf; [lia |].
     destruct (Nat.leb (String.length word) ci) eqn:El.
-    - apply Nat.leb_le in El. exists true, s, ci, log, S, EmptyString. split; [reflexivity | split; [| exact R]].
-      rewrite (gsdrop_nil_iff ci word El). apply gr_stop. intros a0 k o E.
-      destruct (etok_src en x Henvw S _ _ _ (wr_inv _ _ R) E) as [Hne _]. destruct o; [contradiction | reflexivity].
-    - apply Nat.leb_gt in El. set (sub := Glob.sdrop ci word).
+    - apply Nat.leb_le in El. exists true, s, ci, S, EmptyString. split; [| split; [| exact R]].
+      + intro log. exists log. cbn [sw_loop quirky orb]. apply Nat.leb_le in El. rewrite El. reflexivity.
+      + rewrite (gsdrop_nil_iff ci word El). apply gr_stop. intros a0 k o E.
+        destruct (etok_src en x Henvw S _ _ _ (wr_inv _ _ R) E) as [Hne _]. destruct o; [contradiction | reflexivity].
+    - pose proof El as El'. apply Nat.leb_gt in El. set (sub := Glob.sdrop ci word).
       assert (Hlen : String.length sub = (String.length word - ci)%nat) by (unfold sub; apply length_sdrop).
       assert (Hsubne : sub <> EmptyString) by (intro E; rewrite E in Hlen; cbn in Hlen; lia).
-      assert (Hstop : forall b0 log0, (forall a0 k o, etok en S a0 k o -> String.prefix o sub = false) ->
-                 exists b st' ci' log' S' mp, (Ok (b0, s, ci, log0) : M (bool * N * nat * list invocation)) = Ok (b, st', ci', log')
+      pose proof (lit_stage true s S sub R) as Hl.
+      destruct (cmd_stage true s S sub (stake ci word) R Hsubne) as [r0 [Ec0 Hc]].
+      (* what one round computes *)
+      assert (Hround : forall log, sw_loop (Datatypes.S f) Repaired true a benv Tw acc word s ci log
+                = match lit_stage_res true s sub with
+                  | SCont st adv => sw_loop f Repaired true a benv Tw acc word st (ci + adv) log
+                  | SBreak => Ok (false, s, ci, log)
+                  | SNone =>
+                      do (s2, log2) <- (match t_mcmd Tw with
+                                        | Some ct => match assocN s ct with
+                                                     | Some row => cmd_loop Repaired true a benv (assoc_of row) sub (stake ci word) log
+                                                     | None => Ok (SNone, log)
+                                                     end
+                                        | None => Ok (SNone, log)
+                                        end);
+                      match s2 with
+                      | SCont st adv => sw_loop f Repaired true a benv Tw acc word st (ci + adv) log2
+                      | SBreak => Ok (false, s, ci, log2)
+                      | SNone => match t_mstar Tw with
+                                 | Some stars => if has_key s stars then Ok (true, s, ci, log2) else Ok (false, s, ci, log2)
+                                 | None => Ok (false, s, ci, log2)
+                                 end
+                      end
+                  end).
+      { intro log. cbn [sw_loop quirky orb]. rewrite El'. fold sub.
+        match goal with |- context [obind ?X _] =>
+          assert (EL : X = Ok (lit_stage_res true s sub)) by apply lit_call; rewrite EL end.
+        cbn [obind]. reflexivity. }
+      assert (Hstop : (forall a0 k o, etok en S a0 k o -> String.prefix o sub = false) ->
+                 exists S' mp, grun en S sub S' mp (Glob.sdrop ci word) /\ wrel s S').
+      { intros Hs. exists S, EmptyString. split; [apply gr_stop; exact Hs | exact R]. }
+      assert (Hcons : forall a0 k o to, etok en S a0 k o -> String.prefix o sub = true -> wrel to (nextS S a0) ->
+                 exists b st' ci' S' mp,
+                   (forall log, exists log', sw_loop f Repaired true a benv Tw acc word to (ci + String.length o) log = Ok (b, st', ci', log'))
                    /\ grun en S sub S' mp (Glob.sdrop ci' word) /\ wrel st' S').
-      { intros b0 log0 Hs. exists b0, s, ci, log0, S, EmptyString. split; [reflexivity | split; [apply gr_stop; exact Hs | exact R]]. }
-      assert (Hcons : forall a0 k o to log0, etok en S a0 k o -> String.prefix o sub = true -> wrel to (nextS S a0) ->
-                 exists b st' ci' log' S' mp, sw_loop f Repaired true a benv Tw acc word to (ci + String.length o) log0 = Ok (b, st', ci', log')
-                   /\ grun en S sub S' mp (Glob.sdrop ci' word) /\ wrel st' S').
-      { intros a0 k o to log0 E Hp R1. destruct (etok_src en x Henvw S _ _ _ (wr_inv _ _ R) E) as [Hne _].
+      { intros a0 k o to E Hp R1. destruct (etok_src en x Henvw S _ _ _ (wr_inv _ _ R) E) as [Hne _].
         pose proof (sdrop_prefix_shorter o sub Hp Hne) as Hsh. rewrite <- gsdrop_eq, length_sdrop in Hsh.
-        destruct (IH to _ (ci + String.length o)%nat log0 R1) as [b [st' [ci' [log' [S' [mp [E1 [Hg R']]]]]]]]; [lia |].
-        exists b, st', ci', log', S', (append o mp). split; [exact E1 | split; [| exact R']].
+        destruct (IH to _ (ci + String.length o)%nat R1) as [b [st' [ci' [S' [mp [E1 [Hg R']]]]]]]; [lia |].
+        exists b, st', ci', S', (append o mp). split; [exact E1 | split; [| exact R']].
         rewrite gsdrop_add in Hg. fold sub in Hg. rewrite (prefix_split o sub Hp), <- gsdrop_eq. eapply gr_step; [exact E | exact Hg]. }
-      match goal with |- context [obind ?X _] =>
-        assert (EL : X = Ok (lit_stage_res true s sub)) by apply lit_call; rewrite EL end.
-      cbn [obind]. pose proof (lit_stage true s S sub R) as Hl.
-      destruct (lit_stage_res true s sub) as [to n | |].
+      destruct (lit_stage_res true s sub) as [to n | |] eqn:Els.
       + destruct Hl as [t [d [l [k [Hmv [Hp [-> [Htr _]]]]]]]].
-        apply (Hcons (WLit t d l) k t to log (conj Hmv eq_refl) Hp (wrel_lit s S t d l k to R Hmv Htr)).
-      + destruct Hl as [_ Hs]. apply Hstop. exact Hs.
-      + destruct Hl as [_ [Hl1 Hl2]].
-        destruct (cmd_stage true s S sub (stake ci word) log R Hsubne) as [r0 [log1 [Ec Hc]]].
-        match goal with |- context [obind ?X _] => assert (EE : X = Ok (r0, log1)) by exact Ec; rewrite EE end. cbn [obind].
-        destruct r0 as [to n | |].
+        destruct (Hcons (WLit t d l) k t to (conj Hmv eq_refl) Hp (wrel_lit s S t d l k to R Hmv Htr)) as [b [st' [ci' [S' [mp [E1 Hr]]]]]].
+        exists b, st', ci', S', mp. split; [intro log; rewrite Hround; apply E1 | exact Hr].
+      + destruct Hl as [_ Hs]. destruct (Hstop Hs) as [S' [mp Hr]].
+        exists false, s, ci, S', mp. split; [intro log; rewrite Hround; eexists; reflexivity | exact Hr].
+      + destruct Hl as [_ [Hl1 Hl2]]. destruct r0 as [to n | |].
         * destruct Hc as [c [l [k [o [Hmv [Hco [Hp [-> [Htr _]]]]]]]]].
-          apply (Hcons (WCmd c l) k o to log1 (conj Hmv Hco) Hp (wrel_cmd s S c l k to R Hmv Htr)).
-        * destruct Hc as [_ Hs]. apply Hstop. exact Hs.
+          destruct (Hcons (WCmd c l) k o to (conj Hmv Hco) Hp (wrel_cmd s S c l k to R Hmv Htr)) as [b [st' [ci' [S' [mp [E1 Hr]]]]]].
+          exists b, st', ci', S', mp. split; [| exact Hr].
+          intro log. rewrite Hround. destruct (Ec0 log) as [log1 Ec].
+          match goal with |- context [obind ?X _] => assert (EE : X = Ok (_, log1)) by exact Ec; rewrite EE end. cbn [obind]. apply E1.
+        * destruct Hc as [_ Hs]. destruct (Hstop Hs) as [S' [mp Hr]].
+          exists false, s, ci, S', mp. split; [| exact Hr].
+          intro log. rewrite Hround. destruct (Ec0 log) as [log1 Ec].
+          match goal with |- context [obind ?X _] => assert (EE : X = Ok (_, log1)) by exact Ec; rewrite EE end. cbn [obind]. eexists; reflexivity.
         * destruct Hc as [_ Hc2].
           assert (Hs : forall a0 k o, etok en S a0 k o -> String.prefix o sub = false).
           { intros a0 k o [Hmv Ht]. destruct a0 as [t d l | c l |]; cbn in Ht.
             - subst o. apply (Hl1 t d l k Hmv).
             - apply (proj1 (Hc2 c l k o Hmv Ht)).
             - destruct Ht. }
-          destruct (t_mstar Tw) as [stars |]; [destruct (has_key s stars) |]; apply Hstop; exact Hs.
+          destruct (Hstop Hs) as [S' [mp Hr]].
+          exists (match t_mstar Tw with Some stars => has_key s stars | None => false end), s, ci, S', mp. split; [| exact Hr].
+          intro log. rewrite Hround. destruct (Ec0 log) as [log1 Ec].
+          match goal with |- context [obind ?X _] => assert (EE : X = Ok (_, log1)) by exact Ec; rewrite EE end. cbn [obind].
+          destruct (t_mstar Tw) as [stars |]; [destruct (has_key s stars) |]; eexists; reflexivity.
   Qed.
 
   Definition woffered (st : N) (mp cp : string) (L : nat) : list string :=
@@ -657,10 +705,10 @@ Section WordSimG.
     set (lits := filter (String.prefix (append mp cp)) (map (fun id => append mp (literal_at Tw id)) (level_row (t_clit Tw) L st))).
     destruct (t_ccmd Tw) as [cc |] eqn:Ecc.
     - destruct (sw_cmds_level_gen a benv Hic cp mp Hpc (level_row cc L st)
-                  (map (fun id => append mp (literal_at Tw id)) (level_row (t_clit Tw) L st)) lits log) as [sc' [log1 E]].
+                  (map (fun id => append mp (literal_at Tw id)) (level_row (t_clit Tw) L st)) lits) as [sc' E0].
       { intros cid Hcid. apply (ccmd_row cc L st cid Ecc) in Hcid. destruct Hcid as [cm [to [_ Hidx]]].
         rewrite Hcmds, (index_of_nth _ _ _ Hidx). discriminate. }
-      rewrite E. cbn [obind]. destruct (lits ++ cmds_off benv cp mp (level_row cc L st)) as [| m ms]; [apply IH | eauto].
+      destruct (E0 log) as [log1 E]. rewrite E. cbn [obind]. destruct (lits ++ cmds_off benv cp mp (level_row cc L st)) as [| m ms]; [apply IH | eauto].
     - cbn [obind]. rewrite app_nil_r. destruct lits as [| m ms]; [apply IH | eauto].
   Qed.
 
@@ -717,26 +765,26 @@ Section WordSimG.
     - destruct Hoff.
   Qed.
 
-  Theorem subword_complete_gen p log : d_start sd = 0 -> printable_str p = true ->
-    exists reply log', subword_complete Repaired a benv Tw p log = Ok (reply, log')
-                       /\ forall o, In o reply <-> In o (wproper en x p).
+  Theorem subword_complete_gen p : d_start sd = 0 -> printable_str p = true ->
+    exists reply, (forall log, exists log', subword_complete Repaired a benv Tw p log = Ok (reply, log'))
+                  /\ forall o, In o reply <-> In o (wproper en x p).
   Proof.
-    intros H0 Hpr. unfold subword_complete, subword_complete_from.
+    intros H0 Hpr.
     assert (R0 : wrel 0 [x]) by (rewrite <- H0; apply wrel_start).
-    destruct (sw_complete_grun p [] (sw_fuel Tw p) 0 [x] 0%nat log R0) as [b [st' [ci' [log1 [S' [mp [E [Hg R']]]]]]]]; [unfold sw_fuel; lia |].
-    rewrite E. cbn [obind]. cbn [Glob.sdrop] in Hg.
+    destruct (sw_complete_grun p [] (sw_fuel Tw p) 0 [x] 0%nat R0) as [b [st' [ci' [S' [mp [E [Hg R']]]]]]]; [unfold sw_fuel; lia |].
+    cbn [Glob.sdrop] in Hg.
     destruct (cand_grun en x Hdom Henvw [x] p S' mp _ Hg (wr_inv _ _ R0)) as [Ep [_ [_ Hiff]]].
     assert (Emp : mp = stake ci' p).
     { pose proof (stake_sdrop ci' p) as Es. rewrite <- Es in Ep at 1. eapply append_cancel_r. symmetry. exact Ep. }
     subst mp.
-    destruct (sw_levels_gen st' (stake ci' p) (Glob.sdrop ci' p)) with (n := Datatypes.S (N.to_nat (t_maxlevel Tw))) (L := 0%nat) (sc := @nil string) (log := log1)
-      as [log2 E2]; [rewrite stake_sdrop; exact Hpr | apply printable_gsdrop; exact Hpr |].
-    rewrite E2. eexists _, log2. split; [reflexivity |].
-    unfold wproper. apply first_nonempty_lowest.
-    - intros L o. rewrite filter_In. cbn [snd]. rewrite wcands_cand, negb_true_iff, String.eqb_neq, (Hiff (N.of_nat L) o).
-      apply (woffered_spec st' S' _ _ L o R').
-    - intros l o Hin. apply filter_In in Hin. destruct Hin as [Hin Hne']. cbn [snd] in Hne'. apply wcands_cand in Hin.
-      apply negb_true_iff, String.eqb_neq in Hne'.
-      destruct (proj1 (Hiff l o) (conj Hin Hne')) as [o' [_ Hoff]]. apply (offers_range st' S' _ l o' R' Hoff).
+    exists (first_nonempty (woffered st' (stake ci' p) (Glob.sdrop ci' p)) (Datatypes.S (N.to_nat (t_maxlevel Tw))) 0). split.
+    - intro log. unfold subword_complete, subword_complete_from. destruct (E log) as [log1 E1]. rewrite E1. cbn [obind].
+      apply sw_levels_gen; [rewrite stake_sdrop; exact Hpr | apply printable_gsdrop; exact Hpr].
+    - unfold wproper. apply first_nonempty_lowest.
+      + intros L o. rewrite filter_In. cbn [snd]. rewrite wcands_cand, negb_true_iff, String.eqb_neq, (Hiff (N.of_nat L) o).
+        apply (woffered_spec st' S' _ _ L o R').
+      + intros l o Hin. apply filter_In in Hin. destruct Hin as [Hin Hne']. cbn [snd] in Hne'. apply wcands_cand in Hin.
+        apply negb_true_iff, String.eqb_neq in Hne'.
+        destruct (proj1 (Hiff l o) (conj Hin Hne')) as [o' [_ Hoff]]. apply (offers_range st' S' _ l o' R' Hoff).
   Qed.
 End WordSimG.
